@@ -278,6 +278,39 @@ def gen_cases(ctx):
         # the first selections repeated at the end of the history
         items += [dict(items[0]), dict(items[1]), dict(items[3])]
         conc.append({"op": "hist", "cfg": cfg, "items": items, "tag": "hist"})
+    # 7. the same CIDR STRING under groups with different port-randomisation flags: in two groups of one generation,
+    #    in two generations of one selector, and in two selector objects created one after the other in the same
+    #    process; the other-flag group / generation / selector is touched first (also through GetUnweightedSubnetList)
+    def sel_step(sel, gen, lv, v6):
+        return {"sel": sel, "gen": gen, "op": "select", "seed": bytes(rng.getrandbits(8) for _ in range(16)), "lv": lv,
+                "v6": v6, "filter": "none", "weighted": True}
+
+    for k in range(3 if quick else 20):
+        n4 = net(4, rng.getrandbits(32) | (1 << 31), rng.choice([16, 20, 24]))
+        n6 = net(6, rng.getrandbits(128) | (1 << 127), rng.choice([48, 64, 96]))
+        first = bool(k & 1)
+
+        def grp(rp, w=5):
+            return {"w": w, "nets": [dict(n4), dict(n6)], "rp": rp}
+        two = {"groups": [grp(first), grp(not first)]}                       # one generation, two groups, opposite flags
+        gen_a, gen_b = {"groups": [grp(first, 1)]}, {"groups": [grp(not first, 1)]}
+        steps = []
+        if k % 3 == 2:
+            steps.append({"sel": 0, "gen": 1, "op": "list", "seed": b"", "lv": 4, "v6": False, "filter": "none", "weighted": False})
+        for j in range(8):                                                   # both groups of generation 1 get picked
+            steps.append(sel_step(0, 1, [2, 4, 1, 3, 0, 2, 4, 1][j], bool(j & 1)))
+        steps.append({"sel": 0, "gen": 1, "op": "list", "seed": b"", "lv": 4, "v6": False, "filter": "none", "weighted": False})
+        for j in range(3):                                                   # generation 957 first, then 958 with the other flag
+            steps.append(sel_step(0, 957, [4, 1, 2][j], bool(j & 1)))
+        for j in range(4):
+            steps.append(sel_step(0, 958, [4, 2, 1, 0][j], bool(j & 1)))
+        steps.append({"sel": 0, "gen": 958, "op": "selphantom", "seed": bytes(rng.getrandbits(8) for _ in range(16)), "lv": 4,
+                      "v6": False, "filter": "v4", "weighted": True})
+        steps.append({"sel": 0, "gen": 958, "op": "list", "seed": b"", "lv": 4, "v6": False, "filter": "none", "weighted": False})
+        for j in range(3):                                                   # a second selector object, created now
+            steps.append(sel_step(1, 7, [4, 1, 3][j], bool(j & 1)))
+        conc.append({"op": "multi", "selectors": [{"1": two, "957": gen_a, "958": gen_b}, {"7": gen_b if k % 2 else two}],
+                     "steps": steps, "tag": "multi"})
     return cases, exh, conc
 
 
@@ -285,6 +318,9 @@ def to_json(c):
     if c["op"] == "conc":
         return {"op": "conc", "cfg": cfg_json(c["cfg"]), "workers": c["workers"], "rounds": c["rounds"],
                 "items": [{"seed": it["seed"].hex(), "lv": it["lv"], "v6": it["v6"]} for it in c["items"]]}
+    if c["op"] == "multi":
+        return {"op": "multi", "selectors": [{g: cfg_json(cf) for g, cf in sl.items()} for sl in c["selectors"]],
+                "steps": [dict(st, seed=st["seed"].hex()) for st in c["steps"]]}
     if c["op"] == "hist":
         return {"op": "hist", "cfg": cfg_json(c["cfg"]),
                 "items": [{"op": it["op"], "seed": it["seed"].hex(), "lv": it["lv"], "v6": it["v6"], "filter": it["filter"],
@@ -487,6 +523,40 @@ def run(ctx):
                                                         r["serial"][i]["ip"], r["serial"][i]["rp"], which, lst[i]["out"],
                                                         lst[i]["ip"], lst[i]["rp"]), brief(c))
                     break
+    # one CIDR string under several flags / generations / selector objects: the flag granted must be the one of the
+    # group the address was drawn from in THIS generation's configuration, i.e. what a fresh process computes
+    for c, r in zip(conc, res[len(cases):]):
+        if c["op"] != "multi":
+            continue
+        ctx.count(("multi", to_json(c)), nontrivial=True, kind="multi/steps=%d" % len(c["steps"]))
+        for i, (st, ro) in enumerate(zip(c["steps"], r["first"])):
+            cfg = c["selectors"][st["sel"]][str(st["gen"])]
+            if st["op"] == "list":
+                want = "".join(("T" if g["rp"] else "F") * len(g["nets"]) for g in cfg["groups"])
+                k = "multi-list/%s" % ("ok" if ro.get("flags") == want else "wrong-flags")
+                ctx.cov["histogram"][k] = ctx.cov["histogram"].get(k, 0) + 1
+                if ro["out"] == "ok" and ro.get("flags") != want:
+                    ctx.fail("purity/listing-flag-from-another-group", "GetUnweightedSubnetList (step %d, generation %d) reports "
+                             "port-randomisation flags %s, the configuration says %s: a flag leaked from a group parsed earlier in the "
+                             "process" % (i, st["gen"], ro.get("flags"), want), brief(c))
+                continue
+            sc = {"op": st["op"], "seed": st["seed"], "cfg": cfg, "lv": st["lv"], "v6": st["v6"], "filter": st["filter"],
+                  "weighted": st["weighted"], "tag": "multi-step"}
+            oracle(ctx, sc, ro)
+            tk = "tag:multi-step/%s" % ro["out"]
+            ctx.cov["histogram"][tk] = ctx.cov["histogram"].get(tk, 0) + 1
+            terms.append(g_case(sc, ro))
+            tcases.append((sc, ro))
+            # what a fresh process derives from (seed, this generation's configuration, libver, family) alone
+            fresh = ref.select(st["seed"], cfg, st["lv"] if st["op"] == "select" else 4,
+                               st["v6"] if st["op"] == "select" else st["filter"] == "v6")
+            if ro["out"] == "ok" and fresh[0] == "ok" and (bytes.fromhex(ro["ip"]), ro["rp"]) != (fresh[1], fresh[2]):
+                what = "flag" if bytes.fromhex(ro["ip"]) == fresh[1] else "address"
+                ctx.fail("purity/%s-depends-on-earlier-selections" % what, "step %d (%s, selector %d, generation %d, libver %d, seed %s): "
+                         "the code returned %s flag=%s, a derivation from this generation's configuration alone gives %s flag=%s "
+                         "(the same CIDR string is configured with the other flag in a group / generation / selector used earlier)"
+                         % (i, st["op"], st["sel"], st["gen"], st["lv"], st["seed"].hex(), ro["ip"], ro["rp"], fresh[1].hex(), fresh[2]),
+                         brief(c))
     # concurrency
     for c, r in zip(conc, res[len(cases):]):
         if c["op"] != "conc":
@@ -507,7 +577,7 @@ def run(ctx):
     ctx.require_kinds(["select/lv0/ok", "select/lv1/ok", "select/lv2/ok", "select/lv3/ok", "select/lv4/ok",
                        "select/lv0/err", "select/lv1/err", "select/lv2/err", "selphantom/lv-/ok", "selphantom/lv-/err",
                        "tag:leading-zero/ok", "tag:zero-weight/err", "tag:unknown-gen/err", "tag:exh/ok",
-                       "exhaustive-offsets/all-hit", "conc/2", "conc/32", "hist/config-unchanged", "tag:hist-fresh/ok"])
+                       "exhaustive-offsets/all-hit", "conc/2", "conc/32", "hist/config-unchanged", "tag:hist-fresh/ok", "tag:multi-step/ok", "multi-list/ok"])
     mm = ctx.coq_mismatches("sel", HEADER, terms, "chk", shard=max(8, (len(terms) + 15) // 16), need_vo=["C14/Run.vo"])
     if mm:
         ctx.cov["mismatches"] += len(mm)
